@@ -240,3 +240,9 @@ Example c10_example_outage :
   map (fun o => (o_panicked o, o_runs o)) (run_ops t_init None ops) = [(false, 1%nat); (false, 7%nat)]
   /\ ok_history [] ops (run_ops t_init None ops) = true.
 Proof. vm_compute. split; reflexivity. Qed.
+
+(* The part-2 specification oracle (kernel map exact + dispatch evaluation on known/unknown probes) accepts
+   every run of the model: any history, any failure schedules. *)
+Theorem c10_maps_model_meets_spec : forall ops, ok_history [] ops (run_ops t_init None ops) = true.
+Proof. exact maps_model_meets_spec. Qed.
+Print Assumptions c10_maps_model_meets_spec.
